@@ -1,3 +1,5 @@
--- This module serves as the root of the `BC` library.
--- Import modules here that should be built as part of the library.
-import BC.Basic
+import BC.Num
+import BC.Real
+import BC.Gen.Units
+import BC.Ref.SI
+import BC.Props.C06
